@@ -55,10 +55,12 @@ DST_DAYS = {
     "Asia/Kolkata": [],
 }
 ORDINARY = [(2018, 1, 1), (2018, 7, 4), (2019, 2, 28), (2019, 12, 31)]
+# thorough: every month boundary of two years (one of them a leap year)
+MONTH_ENDS = [(y, m, 1) for y in (2019, 2020) for m in range(1, 13)] + [(2020, 2, 29), (2020, 12, 31)]
 
 
 def bounds(tier, seed):
-    return {"max_sessions": 5 if tier == "quick" else 7, "max_pages": 5 if tier == "quick" else 6, "zones": ZONES, "instant_step_min": 30, "seconds": [0, 59]}
+    return {"max_sessions": 5 if tier == "quick" else 9, "max_pages": 5 if tier == "quick" else 7, "zones": ZONES, "instant_step_min": 30 if tier == "quick" else 10, "seconds": [0, 59], "extra_days_thorough": "last and first day of every month of 2019/2020, leap day"}
 
 
 def compositions(n, pmax):
@@ -429,14 +431,15 @@ def run_times(item, only=None):
 
     ptz = pytz.timezone(zone)
     ztz = zoneinfo.ZoneInfo(zone)
-    days = DST_DAYS[zone] + ORDINARY
+    days = DST_DAYS[zone] + ORDINARY + (MONTH_ENDS if tier == "thorough" else [])
     utc = timezone.utc
+    step = 30 if tier == "quick" else 10
     for (y, m, d) in days:
         base = datetime(y, m, d, 0, 0, 0, tzinfo=utc) - timedelta(hours=14)
         instants = []
-        for k in range(0, 2 * 52):  # 52 hours of 30-minute steps around the local day
+        for k in range(0, (60 // step) * 52):  # 52 hours around the local day (the day before it included)
             for sec in (0, 59):
-                instants.append(base + timedelta(minutes=30 * k, seconds=sec))
+                instants.append(base + timedelta(minutes=step * k, seconds=sec))
         if only is not None and only.get("ts_day") is not None and list(only["ts_day"]) != [y, m, d]:
             continue
         if only is not None and only.get("ts_day") is None:
